@@ -458,7 +458,13 @@ def recount_evidence(R, model):
     return False
 
 
-SIG_TAGS = ("after-reset", "after-fin", "final-size-repeated", "at-stream-limit", "at-conn-limit")
+SIG_TAGS = ("at-stream-limit", "at-conn-limit", "at-stream-count-limit")  # boundary the accused peer was sitting on
+VIOLATION_TAGS = ("over-stream-limit", "over-conn-limit", "stream-count", "beyond-final-size", "final-size-changed",
+                  "send-only-stream", "receive-only-stream", "wrong-initiator", "over-varint")
+
+
+def vtags(v):
+    return ",".join(t for t in VIOLATION_TAGS if t in v.tags) or "none"
 
 
 def evaluate(res, case, pup, model, ops, verdicts, closed, R):
@@ -484,21 +490,22 @@ def evaluate(res, case, pup, model, ops, verdicts, closed, R):
         return
     if first_rej is None:
         res.count("o1_must_accept_checked", len(ops))
-        if any("at-stream-limit" in v.tags or "at-conn-limit" in v.tags for v in verdicts) or any(
+        at_count = any(
             o.get("sid") is not None and o["kind"] != "NOISE" and (o["sid"] & 1 == 0) != model.r_is_client
             and o["sid"] // 4 + 1 == model.max_streams[bool(o["sid"] & 2)] for o in ops
-        ):
+        )
+        if any("at-stream-limit" in v.tags or "at-conn-limit" in v.tags for v in verdicts) or at_count:
             if not closed:
                 res.count("o1_at_limit_accepted")
         if closed:
             code = closed[0]
             last = ops[-1]
-            tags = sorted({t for v in verdicts for t in v.tags if t in SIG_TAGS})
+            tags = sorted({t for v in verdicts for t in v.tags if t in SIG_TAGS} | ({"at-stream-count-limit"} if at_count else set()))
             kinds = "+".join(sorted({o["kind"] for o in ops}))
             if code == FLOW_CONTROL_ERROR and not closed[1] and recount_evidence(R, model):
                 sig = "O1:accused-within-limits:FLOW_CONTROL_ERROR:bytes-counted-twice-after-RESET_STREAM"
             elif code in LIMIT_CODES and not closed[1]:
-                sig = "O1:accused-within-limits:%s:%s:%s" % (code_name(code), kinds, ",".join(tags) or "plain")
+                sig = "O1:accused-within-limits:%s:%s" % (code_name(code), ",".join(tags) or "below-every-limit")
             else:
                 sig = "O1:closed-without-cause:%s:%s" % (code_name(code), kinds)
             res.violation(sig, "peer within every advertised limit, R closed with %s (last frame %r)" % (code_name(code), last), case, wit)
@@ -511,15 +518,14 @@ def evaluate(res, case, pup, model, ops, verdicts, closed, R):
         if hooked_window_open(R, model, op):
             res.count("obs_limit_raised_before_advertised")
             return
-        tags = sorted(t for t in v.tags)
         res.violation(
-            "O1:limit-not-enforced:%s:%s" % (op["kind"], ",".join(tags)),
+            "O1:limit-not-enforced:%s:%s" % (op["kind"], vtags(v)),
             "frame %r is beyond what R advertised (%s) but R did not close" % (op, v.why), case, wit,
         )
         return
     code = closed[0]
     if closed[1] or code not in v.codes:
-        sig = "O1:wrong-close-code:%s:%s:got-%s" % (op["kind"], ",".join(sorted(v.tags)), code_name(code))
+        sig = "O1:wrong-close-code:%s:%s:got-%s" % (op["kind"], vtags(v), code_name(code))
         if code == FLOW_CONTROL_ERROR and not closed[1] and recount_evidence(R, model):
             sig = "O1:accused-within-limits:FLOW_CONTROL_ERROR:bytes-counted-twice-after-RESET_STREAM"
         res.violation(
